@@ -196,6 +196,10 @@ static inline uint32_t ph_from_8888(const ph_fmt_t *f, uint32_t argb)
     return p;
 }
 /* mask of the bits of a pixel value that the format defines */
+/* pixman_bool_t is an int: every non-zero value is "true" for the boolean setters (a caller may pass flags & MASK, an X constant, -1).
+ * Harnesses take their TRUE from here, by case index, so that 1 is not the only true value ever stored. */
+static inline int ph_truthy(uint64_t k) { static const int v[6] = { 1, 2, -1, 0x100, 3, -2 }; return v[k % 6]; }
+
 static inline uint32_t ph_defined_mask(const ph_fmt_t *f)
 {
     uint32_t m = 0; int w[4] = { f->aw, f->rw, f->gw, f->bw }, s[4] = { f->as, f->rs, f->gs, f->bs };
